@@ -88,6 +88,24 @@ def net_p_only():
                  "struct": ("pipe", "in_service", [1], False)}
 
 
+def net_twoarea():
+    """two separate supplied areas, each with its own external grid (switching one grid changes what is supplied, not whether the
+    calculation is feasible)"""
+    import pandapipes as pp
+    net = pp.create_empty_network(fluid="water")
+    j = [pp.create_junction(net, 5, 310) for _ in range(6)]
+    pp.create_ext_grid(net, j[0], 5.5, 330, type="pt")
+    pp.create_ext_grid(net, j[3], 4.5, 340, type="pt")
+    pp.create_pipe_from_parameters(net, j[0], j[1], 0.4, 90, k_mm=0.1, u_w_per_m2k=4)
+    pp.create_pipe_from_parameters(net, j[1], j[2], 0.3, 80, k_mm=0.1, u_w_per_m2k=4)
+    pp.create_pipe_from_parameters(net, j[3], j[4], 0.5, 90, k_mm=0.1, u_w_per_m2k=4)
+    pp.create_pipe_from_parameters(net, j[4], j[5], 0.2, 80, k_mm=0.1, u_w_per_m2k=4)
+    pp.create_sink(net, j[2], 0.8)
+    pp.create_sink(net, j[5], 0.5)
+    return net, {"break": ("ext_grid", "in_service", [0, 1], False), "edit": ("sink", "mdot_kg_per_s", [0], 1.2),
+                 "struct": ("pipe", "in_service", [1], False)}
+
+
 def net_valved():
     """water net with an open valve and an active flow controller next to pipes (branches whose momentum equation has structurally
     zero Jacobian entries)"""
@@ -113,7 +131,7 @@ def net_branched_relabel():
     return net, dict(knobs, struct=("sink", "__index__", [1], 7), edit=("sink", "mdot_kg_per_s", [0], 2.1))   # the parameter edit addresses the other sink
 
 
-NETS = {"valved": net_valved, "branched_relabel": net_branched_relabel, "p_only": net_p_only, "deadend": net_deadend_source, "heating_loop": net_heating_loop, "branched": net_branched, "gas": net_gas, "versatility": net_versatility}
+NETS = {"twoarea": net_twoarea, "valved": net_valved, "branched_relabel": net_branched_relabel, "p_only": net_p_only, "deadend": net_deadend_source, "heating_loop": net_heating_loop, "branched": net_branched, "gas": net_gas, "versatility": net_versatility}
 THERMAL_NETS = ("heating_loop", "branched")
 
 
